@@ -319,7 +319,7 @@ package keeper
 //@   at RenewOrder assert [C04.renew.quote] order.Amount.Denom == BondDenom && order.Operation == 3 && (order.Size_ <= MaxInt64 ==>
 //@       order.Amount.Amount == div(1000000000000 * order.Replica * order.Size_ * order.Duration, 1000000000000000000)
 //@            + (mod(1000000000000 * order.Replica * order.Size_ * order.Duration, 1000000000000000000) == 0 ? 0 : 1))
-//@   at SetPledge assert [C07.renew.topup] [C14.renew.topup] pledge.TotalShardPledged.Amount == Pledge[shard.Sp].TotalShardPledged.Amount + extraPledge.Amount
+//@   at SetPledge assert [C07.renew.topup] [C14.renew.topup] has(Pledge, shard.Sp) ==> pledge.TotalShardPledged.Amount == Pledge[shard.Sp].TotalShardPledged.Amount + extraPledge.Amount
 //@       && pledge.TotalStoragePledged == Pledge[shard.Sp].TotalStoragePledged && pledge.TotalStorage == Pledge[shard.Sp].TotalStorage && pledge.UsedStorage == Pledge[shard.Sp].UsedStorage
 //@   at SetShard assert [C07.renew.shardpledge] shard.Pledge.Amount >= Shard[shard.Id].Pledge.Amount && shard.Pledge.Amount >= newPledge.Amount
 //@   at SetShard assert [C11.renew.queue] len(shard.RenewInfos) == len(Shard[shard.Id].RenewInfos) + 1 && shard.RenewInfos[len(shard.RenewInfos) - 1].Duration == msg.Proposal.Duration
